@@ -13,7 +13,21 @@ THEOREMS = ["GmqttVerif.Broker.will_on_unregister",
             "GmqttVerif.Broker.will_content"]
 COMPS = ["broker"]
 
+def gen_raised(rng):
+    """family: the will delay is longer than the session expiry given at CONNECT, and the DISCONNECT (0x04, keeps the will)
+    raises the expiry: the will is then due after the DELAY, not after the old expiry; observed at 0.7 s, 1.5 s and 4.7 s"""
+    ops = [f"new mode=onlyonce se=600", "conn p cp v=5 cs=1", "sub p 1 w/#|1|rap"]
+    ops.append(f"conn x1 cx v=5 cs={rng.choice([0, 1])} se=1 will=w/x,{rng.choice([0, 1])},{rng.choice([0, 1])},{rng.choice([2, 3])},W1")
+    ops.append(f"disc x1 code=4 se={rng.choice([300, 60])}")
+    ops += ["sleep 700", "sleep 800"]
+    if rng.random() < 0.4:
+        ops.append("conn y1 cx v=5 cs=0 se=300")      # re-attached before the delay has passed: never published
+    ops += ["sleep 3200", "ack p puback all", "sub p 2 w/x|1", "ack p puback all"]
+    return ops
+
 def gen(rng):
+    if rng.random() < 0.12:
+        return gen_raised(rng)
     cfg_se = rng.choice([600, 600, 1])
     ops = [f"new mode={rng.choice(['overlap', 'onlyonce'])} se={cfg_se}", "conn p cp v=5 cs=1", "sub p 1 w/#|1|rap"]
     v = rng.choice([4, 5, 5])
@@ -34,7 +48,8 @@ def gen(rng):
     if end == "disc":
         ops.append("disc x1" + (f" se={rng.choice([0, 300])}" if v == 5 and rng.random() < 0.3 else ""))
     elif end == "disc4":
-        ops.append("disc x1 code=4" if v == 5 else "close x1")
+        # Disconnect with Will Message, possibly raising/lowering the session expiry at the same time
+        ops.append(("disc x1 code=4" + (f" se={rng.choice([1, 300])}" if se and rng.random() < 0.6 else "")) if v == 5 else "close x1")
     elif end == "close":
         ops.append("close x1")
     elif end == "takeover0":
@@ -46,10 +61,14 @@ def gen(rng):
     else:
         ops.append("raw x1 ff00")       # reserved packet type: malformed
     # what happens during / after the will delay
-    after = rng.choice(["wait", "wait", "resume", "fresh", "term", "partial"])
+    after = rng.choice(["wait", "wait", "resume", "fresh", "term", "partial", "partial2"])
     if after == "partial":
         ops.append("sleep 700")
         after = rng.choice(["wait", "resume", "fresh"])
+    elif after == "partial2":
+        # observe in the middle of a 2 s delay as well (1.5 s): too early for the will unless the session expired at 1 s
+        ops.append("sleep 700"); ops.append("sleep 800")
+        after = rng.choice(["wait", "wait", "resume"])
     if after == "resume":
         ops.append(f"conn y1 cx v={v} cs=0" + (" se=300" if v == 5 else ""))
     elif after == "fresh":
